@@ -461,5 +461,605 @@ Section Comp.
       with (cst (S cm) idx' mt' 0 n' (nth (S cm) skips [])).
     destruct (skipn_cons_inv _ _ _ _ Hs') as (Hn' & _ & _).
     pose proof (wf_meta_nth _ _ _ _ Hwf Hn') as H1.
-    destruct (ci_op_loc (S cm) idx' mt' 0 n' _ f' post' Hm' (wf_meta_asc _ Hwf) Hs' ltac:(lia)) as [-> _]. reflexivity.
+    destruct (ci_op_loc (S cm) idx' mt' 0 n' (nth (S cm) skips []) f' post' Hm' (wf_meta_asc _ Hwf) Hs' ltac:(lia)) as [-> _]. reflexivity.
   Qed.
+
+  (* from the first instruction of an unskipped function to the last instruction of the module's last
+     unskipped function *)
+  Lemma walk_funcs : forall cm mt skip, nth_error metas cm = Some mt -> wf_meta mt = true ->
+    forall k post, (length post <= k)%nat -> forall idx f n, skipn idx mt = (f, n) :: post ->
+    exists Epre idx_l f_l n_l post_l,
+      skipn idx_l mt = (f_l, n_l) :: post_l /\ drop_skipped skip post_l = [] /\ 1 <= n_l
+      /\ Epre ++ [V (N.of_nat cm) f_l (n_l - 1) true true]
+         = func_visits (N.of_nat cm) (f, n) ++ expected_mod (N.of_nat cm) post skip
+      /\ forall fuel, walk CI (length Epre + fuel) None (cst cm idx mt 0 n skip)
+                      = (Epre ++ fst (walk CI fuel None (cst cm idx_l mt (n_l - 1) n_l skip)),
+                         snd (walk CI fuel None (cst cm idx_l mt (n_l - 1) n_l skip))).
+  Proof.
+    intros cm mt skip Hm Hwf. pose proof (wf_meta_asc _ Hwf) as Ha.
+    assert (forall post idx f n, skipn idx mt = (f, n) :: post -> drop_skipped skip post = [] ->
+      exists Epre idx_l f_l n_l post_l,
+      skipn idx_l mt = (f_l, n_l) :: post_l /\ drop_skipped skip post_l = [] /\ 1 <= n_l
+      /\ Epre ++ [V (N.of_nat cm) f_l (n_l - 1) true true]
+         = func_visits (N.of_nat cm) (f, n) ++ expected_mod (N.of_nat cm) post skip
+      /\ forall fuel, walk CI (length Epre + fuel) None (cst cm idx mt 0 n skip)
+                      = (Epre ++ fst (walk CI fuel None (cst cm idx_l mt (n_l - 1) n_l skip)),
+                         snd (walk CI fuel None (cst cm idx_l mt (n_l - 1) n_l skip)))) as Hbase.
+    { intros post idx f n Hs Ed.
+      destruct (skipn_cons_inv _ _ _ _ Hs) as (Hn & _ & _). pose proof (wf_meta_nth _ _ _ _ Hwf Hn) as H1.
+      exists (pre (N.of_nat cm) f (N.to_nat (n - 1)) 0), idx, f, n, post.
+      split; [exact Hs|]. split; [exact Ed|]. split; [exact H1|]. split.
+      - rewrite (func_visits_split _ _ _ H1), (expected_all_skipped _ _ _ Ed), app_nil_r. reflexivity.
+      - intros fuel. rewrite pre_length.
+        rewrite (walk_pre cm idx mt n skip f post Hm Ha Hs (N.to_nat (n - 1)) 0 fuel) by lia.
+        replace (0 + N.of_nat (N.to_nat (n - 1))) with (n - 1) by lia. reflexivity. }
+    induction k as [|k IH]; intros post Hlen idx f n Hs;
+      destruct (drop_skipped skip post) as [|[f' n'] post''] eqn:Ed.
+    - apply Hbase; assumption.
+    - exfalso. destruct (drop_skipped_head _ _ _ _ _ Ed). lia.
+    - apply Hbase; assumption.
+    - destruct (drop_skipped_head _ _ _ _ _ Ed) as [Hf' Hlt].
+      destruct (skipn_cons_inv _ _ _ _ Hs) as (Hn & _ & _). pose proof (wf_meta_nth _ _ _ _ Hwf Hn) as H1.
+      destruct (ci_next_fnext cm idx mt (n - 1) n skip f post f' n' post'' Hm Hwf Hs ltac:(lia) Ed)
+        as (idx' & Hs'' & Hnext).
+      destruct (IH post'' ltac:(lia) idx' f' n' Hs'') as (Epre' & idx_l & f_l & n_l & post_l & Hsl & Edl & Hnl & Heq & Hwalk).
+      exists (pre (N.of_nat cm) f (N.to_nat (n - 1)) 0 ++ V (N.of_nat cm) f (n - 1) true true :: Epre'), idx_l, f_l, n_l, post_l.
+      split; [exact Hsl|]. split; [exact Edl|]. split; [exact Hnl|]. split.
+      + rewrite (func_visits_split _ _ _ H1), (expected_drop _ skip post), Ed, (expected_cons_unskipped _ _ _ _ _ Hf'), <- Heq.
+        rewrite <- !app_assoc. cbn [app]. reflexivity.
+      + intros fuel. rewrite app_length, pre_length. cbn [length].
+        replace (N.to_nat (n - 1) + S (length Epre') + fuel)%nat with (N.to_nat (n - 1) + S (length Epre' + fuel))%nat by lia.
+        rewrite (walk_pre cm idx mt n skip f post Hm Ha Hs (N.to_nat (n - 1)) 0 _) by lia.
+        replace (0 + N.of_nat (N.to_nat (n - 1))) with (n - 1) by lia.
+        destruct (ci_op_loc cm idx mt (n - 1) n skip f post Hm Ha Hs ltac:(lia)) as [Hop Hloc].
+        rewrite (walk_more CI _ _ _ _ Hop Hloc Hnext), Hwalk. cbn [fst snd ev_of].
+        assert (n <=? n - 1 + 1 = true) as -> by (apply N.leb_le; lia).
+        rewrite <- app_assoc. cbn [app]. reflexivity.
+  Qed.
+
+  (* what next() preserves; enough to bring reset() back to the initial state *)
+  Definition Inv (s : csub) : Prop :=
+    c_metas s = metas /\ c_skips s = skips /\ c_num s = length metas
+    /\ exists j, (j < length metas)%nat /\ m_skip (c_it s) = nth j skips [].
+  (* the state in which a full traversal ends *)
+  Definition Fin (s : csub) : Prop :=
+    Inv s /\ (last_skipped (last metas []) (nth (pred (length metas)) skips []) = false -> exists v, c_curr_loc s = Ok v).
+
+  Lemma last_skipped_tail : forall mt skip idx fn p post, skipn idx mt = fn :: p :: post ->
+    drop_skipped skip (p :: post) = [] -> last_skipped mt skip = true.
+  Proof.
+    intros * Hs Ed. unfold last_skipped. destruct mt as [|a mt']; [destruct idx; discriminate|].
+    rewrite (skipn_last _ _ _ _ (0, 0) Hs).
+    change (last (fn :: p :: post) (0, 0)) with (last (p :: post) (0, 0)).
+    apply drop_skipped_nil_last; [discriminate|exact Ed].
+  Qed.
+
+  Lemma any_mod_cons : forall p mt r sk, any_mod p (mt :: r) sk = p mt (hd [] sk) || any_mod p r (tl sk).
+  Proof. reflexivity. Qed.
+  Lemma expected_comp_from_cons : forall m mt r sk,
+    expected_comp_from m (mt :: r) sk = expected_mod m mt (hd [] sk) ++ expected_comp_from (m + 1) r (tl sk).
+  Proof. reflexivity. Qed.
+
+  Lemma walk_modules : forall rest cm mt, skipn cm metas = mt :: rest ->
+    any_mod d12_mod (mt :: rest) (skipn cm skips) = false ->
+    any_nonlast last_skipped (mt :: rest) (skipn cm skips) = false ->
+    forallb wf_meta (mt :: rest) = true ->
+    forall it, m_new mt (nth cm skips []) = Ok it ->
+    forall fuel, exists sf,
+      walk CI (length (expected_comp_from (N.of_nat cm) (mt :: rest) (skipn cm skips)) + fuel) None
+           (mkC cm (length metas) it metas skips)
+      = (expected_comp_from (N.of_nat cm) (mt :: rest) (skipn cm skips), WEnd sf) /\ Fin sf.
+  Proof.
+    induction rest as [|mt' rest IH]; intros cm mt Hsk Hd12 Hd13 Hwfs it Hnew fuel;
+      destruct (skipn_cons_inv _ _ _ _ Hsk) as (Hm & Hsk' & Hlen);
+      rewrite any_mod_cons, skipn_hd_nth, skipn_tl in Hd12; apply orb_false_iff in Hd12; destruct Hd12 as [Hd Hd12];
+      cbn [forallb] in Hwfs; apply andb_true_iff in Hwfs; destruct Hwfs as [Hwf Hwfs];
+      destruct (m_new_ok _ _ Hd) as (idx & f & n & post & Hnew' & Hs & Hdrop);
+      rewrite Hnew in Hnew'; injection Hnew' as ->;
+      destruct (drop_skipped_head _ _ _ _ _ Hdrop) as [Hf _];
+      destruct (walk_funcs cm mt (nth cm skips []) Hm Hwf (length post) post (le_n _) idx f n Hs)
+        as (Epre & idx_l & f_l & n_l & post_l & Hsl & Edl & Hnl & Heq & Hwalk);
+      assert (expected_mod (N.of_nat cm) mt (nth cm skips []) = Epre ++ [V (N.of_nat cm) f_l (n_l - 1) true true]) as HE
+        by (rewrite Heq, (expected_drop _ _ mt), Hdrop; apply expected_cons_unskipped; exact Hf);
+      destruct (ci_op_loc cm idx_l mt (n_l - 1) n_l (nth cm skips []) f_l post_l Hm (wf_meta_asc _ Hwf) Hsl ltac:(lia)) as [Hop Hloc];
+      assert (n_l <=? n_l - 1 + 1 = true) as Hend by (apply N.leb_le; lia);
+      rewrite expected_comp_from_cons, skipn_hd_nth, skipn_tl, HE;
+      change (mkC cm (length metas) (mkM idx mt (mkF 0 n) (nth cm skips [])) metas skips) with (cst cm idx mt 0 n (nth cm skips [])).
+    - (* the last module *)
+      cbn [expected_comp_from]. rewrite app_nil_r, app_length. cbn [length].
+      replace (length Epre + 1 + fuel)%nat with (length Epre + S fuel)%nat by lia. rewrite Hwalk.
+      cbn [length] in Hlen.
+      destruct post_l as [|p post_l'].
+      + eexists. rewrite (walk_end CI _ _ _ _ Hop Hloc (ci_next_last cm idx_l mt (n_l - 1) n_l _ _ Hsl ltac:(lia) ltac:(lia))).
+        cbn [fst snd ev_of]. rewrite Hend. split; [reflexivity|].
+        split; [repeat split; prj; try reflexivity; exists cm; split; [lia|reflexivity]|].
+        intros _. unfold c_curr_loc, m_curr_loc, get_curr_func. prj.
+        destruct (skipn_cons_inv _ _ _ _ Hsl) as (-> & _ & _). eexists. reflexivity.
+      + eexists. rewrite (walk_end CI _ _ _ _ Hop Hloc (ci_next_tailskip cm idx_l mt (n_l - 1) n_l _ _ _ Hsl ltac:(lia) ltac:(discriminate) Edl)).
+        cbn [fst snd ev_of]. rewrite Hend. split; [reflexivity|].
+        split; [repeat split; prj; try reflexivity; exists cm; split; [lia|reflexivity]|].
+        intros Hls. exfalso.
+        rewrite (@skipn_last meta cm metas mt [] [] Hsk) in Hls. cbn [last] in Hls.
+        replace (pred (length metas)) with cm in Hls by lia.
+        rewrite (last_skipped_tail _ _ _ _ _ _ Hsl Edl) in Hls. discriminate.
+    - (* a module followed by another one *)
+      change (any_nonlast last_skipped (mt :: mt' :: rest) (skipn cm skips))
+        with (last_skipped mt (hd [] (skipn cm skips)) || any_nonlast last_skipped (mt' :: rest) (tl (skipn cm skips))) in Hd13.
+      rewrite skipn_hd_nth, skipn_tl in Hd13. apply orb_false_iff in Hd13. destruct Hd13 as [Hls Hd13].
+      destruct post_l as [|p post_l'].
+      2:{ rewrite (last_skipped_tail _ _ _ _ _ _ Hsl Edl) in Hls. discriminate. }
+      destruct (skipn_cons_inv _ _ _ _ Hsk') as (Hm' & _ & _).
+      pose proof Hd12 as Hd12'. rewrite any_mod_cons, skipn_hd_nth in Hd12'. apply orb_false_iff in Hd12'.
+      pose proof Hwfs as Hwfs'. cbn [forallb] in Hwfs'. apply andb_true_iff in Hwfs'.
+      destruct (ci_next_module cm idx_l mt (n_l - 1) n_l (nth cm skips []) _ mt' Hsl ltac:(lia) Hm' (proj1 Hwfs') (proj1 Hd12'))
+        as (it' & Hnew2 & Hnext).
+      destruct (IH (S cm) mt' Hsk' Hd12 Hd13 Hwfs it' Hnew2 fuel) as (sf & Hw & Hfin).
+      exists sf. split; [|exact Hfin].
+      rewrite !app_length. cbn [length].
+      replace (N.of_nat cm + 1) with (N.of_nat (S cm)) by lia.
+      set (E2 := expected_comp_from (N.of_nat (S cm)) (mt' :: rest) (skipn (S cm) skips)) in *.
+      replace (length Epre + 1 + length E2 + fuel)%nat with (length Epre + S (length E2 + fuel))%nat by lia.
+      rewrite Hwalk, (walk_more CI _ _ _ _ Hop Hloc Hnext), Hw. cbn [fst snd ev_of]. rewrite Hend.
+      rewrite <- !app_assoc. cbn [app]. reflexivity.
+  Qed.
+
+  Lemma c_next_inv : forall s s' b, Inv s -> c_next s = Ok (s', b) -> Inv s'.
+  Proof.
+    intros s s' b (Hm & Hs & Hn & j & Hj & Hsk) H. unfold c_next in H.
+    destruct (m_has_next (c_it s)).
+    - destruct (m_next (c_it s)) as [[it b']|] eqn:En; [|discriminate]. injection H; intros; subst s' b'.
+      destruct (m_next_keeps _ _ _ En) as [_ Hk].
+      repeat split; prj; try assumption. exists j. rewrite Hk. auto.
+    - unfold c_next_module in H. destruct (Nat.ltb (S (c_mod s)) (c_num s)) eqn:El.
+      + destruct (nth_error (c_metas s) (S (c_mod s))) as [mt|]; [|discriminate].
+        destruct (m_new mt (nth (S (c_mod s)) (c_skips s) [])) as [it|] eqn:En; [|discriminate].
+        injection H; intros; subst s' b.
+        destruct (m_new_keeps _ _ _ En) as [_ Hk]. apply Nat.ltb_lt in El.
+        repeat split; prj; try assumption. exists (S (c_mod s)). rewrite Hk, Hs. split; [lia|reflexivity].
+      + injection H; intros; subst s' b. repeat split; prj; try assumption. exists j. auto.
+  Qed.
+  Lemma ci_next_inv : forall s s' b, Inv s -> ci_next s = Ok (s', b) -> Inv s'.
+  Proof.
+    intros s s' b HI H. unfold ci_next in H. destruct (c_next s) as [[c' [|]]|] eqn:En; try discriminate.
+    - destruct (ci_curr_op c'); [|discriminate]. injection H; intros; subst. eapply c_next_inv; eassumption.
+    - injection H; intros; subst. eapply c_next_inv; eassumption.
+  Qed.
+
+  Lemma all_same_nth : forall (h : list N) (l : list (list N)) j,
+    forallb (nlist_eqb h) l = true -> (j < length l)%nat -> nth j l [] = h.
+  Proof.
+    intros h l j H Hj. rewrite forallb_forall in H. symmetry. apply nlist_eqb_eq, H, nth_In, Hj.
+  Qed.
+
+  (* reset() from any state a traversal can be in, when all modules have the same skip list *)
+  Lemma c_reset_new : forall s mt0, Inv s -> nth_error metas 0 = Some mt0 ->
+    forallb (nlist_eqb (hd [] skips)) skips = true -> length skips = length metas ->
+    d12_mod mt0 (nth 0 skips []) = false ->
+    c_reset s = c_new metas skips.
+  Proof.
+    intros s mt0 (Hm & Hs & Hn & j & Hj & Hsk) H0 Hall Hlen Hd.
+    unfold c_reset, c_new, m_reset_from_comp. rewrite Hm, H0, Hs, Hn.
+    assert (m_skip (c_it s) = nth 0 skips []) as Hsk0.
+    { rewrite Hsk, (all_same_nth _ _ j Hall) by lia.
+      symmetry. apply all_same_nth; [exact Hall|]. assert (0 < length metas)%nat by (apply nth_error_Some; congruence). lia. }
+    rewrite Hsk0, (m_reset_new _ _ _ _ Hd). reflexivity.
+  Qed.
+End Comp.
+
+(* the script never needs more fuel than [fuel_of_comp] *)
+Lemma instrs_length : forall m f n i, length (instrs m f n i) = n.
+Proof. induction n; intros; cbn [instrs length]; auto. Qed.
+Lemma expected_mod_length : forall m mt skip, (length (expected_mod m mt skip) <= N.to_nat (total_instrs mt))%nat.
+Proof.
+  intros m mt skip. unfold expected_mod, total_instrs. induction mt as [|[f n] mt IH]; cbn [filter flat_map fold_right length fst snd]; [lia|].
+  rewrite N2Nat.inj_add. destruct (negb (skipped skip f)); cbn [flat_map].
+  - rewrite app_length. unfold func_visits at 1. rewrite instrs_length. cbn [snd]. lia.
+  - lia.
+Qed.
+Lemma expected_comp_length : forall metas m skips,
+  (length (expected_comp_from m metas skips) <= N.to_nat (fold_right (fun mt a => (total_instrs mt + a)%N) 0%N metas))%nat.
+Proof.
+  induction metas as [|mt metas IH]; intros m skips; cbn [expected_comp_from fold_right length]; [lia|].
+  rewrite app_length, N2Nat.inj_add. pose proof (expected_mod_length m mt (hd [] skips)). specialize (IH (m + 1) (tl skips)). lia.
+Qed.
+
+(* ------------------------------------------------------------------------------------------ *)
+(* C26, visiting half: outside D12 / D13 the ComponentIterator script yields exactly the specified events *)
+
+Theorem ci_run_exact : forall metas skips k probe,
+  metas <> [] -> forallb wf_meta metas = true -> length skips = length metas ->
+  known_D12_comp metas skips probe = false -> known_D13 metas skips k = false ->
+  ci_run metas skips k probe = expected_trace (expected_comp metas skips) k probe.
+Proof.
+  intros metas skips k probe Hne Hwf Hlen H12 H13.
+  assert (exists mt0 rest, metas = mt0 :: rest) as (mt0 & rest & Em) by (destruct metas; [congruence|eauto]).
+  unfold known_D12_comp in H12. apply orb_false_iff in H12. destruct H12 as [H12 Hpr].
+  unfold known_D13 in H13. apply orb_false_iff in H13. destruct H13 as [H13 Hrs].
+  apply orb_false_iff in H13. destruct H13 as [H13 _].
+  assert (skipn 0 metas = mt0 :: rest) as Hsk by (cbn [skipn]; exact Em).
+  assert (d12_mod mt0 (nth 0 skips []) = false) as Hd0.
+  { rewrite Em, any_mod_cons in H12. apply orb_false_iff in H12. rewrite <- (skipn_hd_nth 0 skips []). cbn [skipn]. tauto. }
+  destruct (m_new_ok _ _ Hd0) as (idx & f & n & post & Hnew & _ & _).
+  set (E := expected_comp metas skips).
+  set (s0 := mkC 0 (length metas) (mkM idx mt0 (mkF 0 n) (nth 0 skips [])) metas skips).
+  assert (c_new metas skips = Ok s0) as Hcn.
+  { unfold c_new. replace (nth_error metas 0) with (Some mt0) by (rewrite Em; reflexivity). rewrite Hnew. reflexivity. }
+  set (F := fuel_of_comp metas).
+  assert (exists sf, walk CI F None s0 = (E, WEnd sf) /\ Fin metas skips sf) as (sf & Hw & Hfin).
+  { pose proof (expected_comp_length metas 0 skips) as HL. fold (expected_comp metas skips) in HL. fold E in HL.
+    assert (F = length E + (F - length E))%nat as HF by (unfold F, fuel_of_comp; lia).
+    pose proof H12 as H12'. pose proof H13 as H13'. pose proof Hwf as Hwf'. rewrite Em in H12', H13', Hwf'.
+    destruct (walk_modules metas skips rest 0 mt0 Hsk H12' H13' Hwf' _ Hnew (F - length E)) as (sf & X & Y).
+    cbn [skipn N.of_nat] in X. rewrite <- Em in X. fold (expected_comp metas skips) in X. fold E in X.
+    exists sf. rewrite HF. split; assumption. }
+  assert (full CI F probe s0 = E ++ (if probe then [EAfter] else [])) as Hfull.
+  { unfold full. rewrite Hw. destruct probe; [|rewrite app_nil_r; reflexivity].
+    cbn [andb] in Hpr. destruct Hfin as [_ Hloc]. destruct (Hloc Hpr) as [v Hv]. change (k_loc CI sf) with (c_curr_loc sf). rewrite Hv. reflexivity. }
+  unfold ci_run, run. fold F. rewrite Hcn.
+  destruct k as [k|]; [|exact Hfull].
+  destruct (walk_lim CI F k s0 E sf Hw) as (w & Hwk & Hwok). rewrite Hwk.
+  assert (Inv metas skips s0) as HI0.
+  { repeat split; try reflexivity. exists 0%nat. split; [rewrite Em; cbn [length]; lia|reflexivity]. }
+  pose proof (walk_inv CI (Inv metas skips) (ci_next_inv metas skips) F (Some k) s0 _ w HI0 Hwk) as HIw.
+  apply negb_false_iff in Hrs.
+  assert (forall s', Inv metas skips s' -> firstn (S k) E ++ match k_reset CI s' with
+            | Panic => [EReset; EPanic] | Ok s'' => EReset :: full CI F probe s'' end
+          = expected_trace E (Some k) probe) as Hgo.
+  { intros s' HI'. change (k_reset CI s') with (c_reset s').
+    rewrite (c_reset_new metas skips s' mt0 HI' ltac:(rewrite Em; reflexivity) Hrs Hlen Hd0), Hcn, Hfull.
+    unfold expected_trace. rewrite <- app_assoc. reflexivity. }
+  destruct w as [| |s'|s']; try contradiction; specialize (Hgo s' HIw);
+    destruct (k_reset CI s'); exact Hgo.
+Qed.
+
+(* ------------------------------------------------------------------------------------------ *)
+(* The ModuleIterator is the ComponentIterator on a component with that one module *)
+
+Section One.
+  Variable mt : meta.
+  Variable sk : list (list N).
+
+  Definition wrap (j : nat) (ms : msub) : csub := mkC j 1 ms [mt] sk.
+
+  Lemma one_op : forall ms, m_meta ms = mt -> ci_curr_op (wrap 0 ms) = mi_curr_op ms.
+  Proof.
+    intros ms Hm. unfold ci_curr_op, mi_curr_op, c_end, c_curr_loc, wrap. prj. cbn [Nat.eqb].
+    destruct (m_curr_loc ms) as [[[f i] e]|]; [|reflexivity]. cbn [nth_error]. rewrite Hm. reflexivity.
+  Qed.
+
+  Lemma one_loc : forall j ms, k_loc CI (wrap j ms) =
+    match k_loc MI ms with Ok (_, f, i, e) => Ok (N.of_nat j, f, i, e) | Panic => Panic end.
+  Proof.
+    intros. unfold CI, MI, c_curr_loc, wrap. prj. destruct (m_curr_loc ms) as [[[f i] e]|]; reflexivity.
+  Qed.
+
+  Lemma one_next : forall ms, m_meta ms = mt ->
+    match mi_next ms, ci_next (wrap 0 ms) with
+    | Panic, Panic => True
+    | Ok (ms', b), Ok (cs', b') =>
+        b = b' /\ m_meta ms' = mt /\ exists j, cs' = wrap j ms' /\ (b = true -> j = 0%nat)
+    | _, _ => False
+    end.
+  Proof.
+    intros ms Hm. unfold mi_next, ci_next, c_next, wrap. prj.
+    destruct (m_has_next ms) eqn:Eh.
+    - destruct (m_next ms) as [[ms' b]|] eqn:En; [|exact I].
+      destruct (m_next_keeps _ _ _ En) as [Hk _]. rewrite Hm in Hk.
+      destruct b.
+      + change (mkC 0 1 ms' [mt] sk) with (wrap 0 ms'). rewrite (one_op _ Hk).
+        destruct (mi_curr_op ms'); [|exact I]. split; [reflexivity|]. split; [exact Hk|]. exists 0%nat. auto.
+      + split; [reflexivity|]. split; [exact Hk|]. exists 0%nat. split; [reflexivity|discriminate].
+    - unfold m_has_next in Eh. apply orb_false_iff in Eh. destruct Eh as [E1 E2].
+      unfold m_next, m_next_function. rewrite E1, E2. cbn [negb].
+      unfold c_next_module. prj. cbn [Nat.ltb Nat.leb].
+      split; [reflexivity|]. split; [exact Hm|]. exists 1%nat. split; [reflexivity|discriminate].
+  Qed.
+
+  Definition wrel (w1 : wend msub) (w2 : wend csub) : Prop :=
+    match w1, w2 with
+    | WPanic, WPanic | WFuel, WFuel => True
+    | WStopped a, WStopped b | WEnd a, WEnd b => m_meta a = mt /\ exists j, b = wrap j a
+    | _, _ => False
+    end.
+
+  Lemma one_walk : forall fuel lim ms, m_meta ms = mt ->
+    fst (walk MI fuel lim ms) = fst (walk CI fuel lim (wrap 0 ms))
+    /\ wrel (snd (walk MI fuel lim ms)) (snd (walk CI fuel lim (wrap 0 ms))).
+  Proof.
+    induction fuel as [|fuel IH]; intros lim ms Hm; [cbn; auto|].
+    cbn [walk]. change (k_op CI (wrap 0 ms)) with (ci_curr_op (wrap 0 ms)). rewrite (one_op _ Hm).
+    change (k_op MI ms) with (mi_curr_op ms).
+    destruct (mi_curr_op ms) as [[|]|]; cbn [fst snd wrel]; auto.
+    2:{ split; [reflexivity|]. split; [exact Hm|]. exists 0%nat. reflexivity. }
+    rewrite one_loc. destruct (k_loc MI ms) as [[[[m f] i] e]|] eqn:El; cbn [fst snd wrel]; auto.
+    assert (m = 0) as -> by (unfold MI in El; prj; destruct (m_curr_loc ms) as [[[? ?] ?]|]; congruence).
+    cbn [N.of_nat].
+    assert (forall lim',
+      fst (match k_next MI ms with
+           | Ok (s', true) => let '(t, w) := walk MI fuel lim' s' in (ev_of (0, f, i, e) :: t, w)
+           | Ok (s', false) => ([ev_of (0, f, i, e)], WEnd s')
+           | Panic => ([ev_of (0, f, i, e); EPanic], WPanic) end)
+      = fst (match k_next CI (wrap 0 ms) with
+           | Ok (s', true) => let '(t, w) := walk CI fuel lim' s' in (ev_of (0, f, i, e) :: t, w)
+           | Ok (s', false) => ([ev_of (0, f, i, e)], WEnd s')
+           | Panic => ([ev_of (0, f, i, e); EPanic], WPanic) end)
+      /\ wrel (snd (match k_next MI ms with
+           | Ok (s', true) => let '(t, w) := walk MI fuel lim' s' in (ev_of (0, f, i, e) :: t, w)
+           | Ok (s', false) => ([ev_of (0, f, i, e)], WEnd s')
+           | Panic => ([ev_of (0, f, i, e); EPanic], WPanic) end))
+          (snd (match k_next CI (wrap 0 ms) with
+           | Ok (s', true) => let '(t, w) := walk CI fuel lim' s' in (ev_of (0, f, i, e) :: t, w)
+           | Ok (s', false) => ([ev_of (0, f, i, e)], WEnd s')
+           | Panic => ([ev_of (0, f, i, e); EPanic], WPanic) end))) as Hgo.
+    { intros lim'. pose proof (one_next ms Hm) as Hn.
+      change (k_next MI ms) with (mi_next ms). change (k_next CI (wrap 0 ms)) with (ci_next (wrap 0 ms)).
+      destruct (mi_next ms) as [[ms' b]|]; destruct (ci_next (wrap 0 ms)) as [[cs' b']|]; try contradiction.
+      2:{ cbn [fst snd wrel]. auto. }
+      destruct Hn as (<- & Hm' & j & -> & Hj). destruct b.
+      - rewrite (Hj eq_refl). destruct (IH lim' ms' Hm') as [H1 H2].
+        destruct (walk MI fuel lim' ms'), (walk CI fuel lim' (wrap 0 ms')). cbn [fst snd] in *. rewrite H1. auto.
+      - cbn [fst snd wrel]. split; [reflexivity|]. split; [exact Hm'|]. exists j. reflexivity. }
+    destruct lim as [[|k]|]; [|apply Hgo|apply Hgo].
+    cbn [fst snd wrel]. split; [reflexivity|]. split; [exact Hm|]. exists 0%nat. reflexivity.
+  Qed.
+
+  Lemma m_reset_keeps : forall s s', m_reset s = Ok s' -> m_meta s' = m_meta s.
+  Proof.
+    intros s s' H. unfold m_reset, handle_skips in H. prj. destruct (skipn 0 (m_meta s)); [discriminate|].
+    unfold get_curr_func in H. prj. match type of H with context [nth_error ?a ?b] => destruct (nth_error a b) as [[? ?]|] end; [|discriminate].
+    injection H; intros; subst. prj. reflexivity.
+  Qed.
+
+  Lemma one_reset : forall j ms, m_meta ms = mt ->
+    match k_reset MI ms, k_reset CI (wrap j ms) with
+    | Panic, Panic => True
+    | Ok a, Ok b => m_meta a = mt /\ b = wrap 0 a
+    | _, _ => False
+    end.
+  Proof.
+    intros j ms Hm. unfold CI, MI, c_reset, m_reset_from_comp, wrap. prj. cbn [nth_error].
+    replace (mkM (m_idx ms) mt (m_fi ms) (m_skip ms)) with ms by (destruct ms; prj; subst; reflexivity).
+    destruct (m_reset ms) as [a|] eqn:Er; [|exact I]. split; [|reflexivity].
+    rewrite (m_reset_keeps _ _ Er). exact Hm.
+  Qed.
+
+  Lemma one_full : forall fuel probe ms, m_meta ms = mt -> full MI fuel probe ms = full CI fuel probe (wrap 0 ms).
+  Proof.
+    intros fuel probe ms Hm. unfold full. destruct (one_walk fuel None ms Hm) as [H1 H2].
+    destruct (walk MI fuel None ms) as [t1 w1], (walk CI fuel None (wrap 0 ms)) as [t2 w2]. cbn [fst snd] in *. subst t2.
+    destruct w1, w2; cbn [wrel] in H2; try contradiction; try reflexivity.
+    destruct H2 as (_ & j & ->). destruct probe; [|reflexivity].
+    rewrite one_loc. destruct (k_loc MI s) as [[[[? ?] ?] ?]|]; reflexivity.
+  Qed.
+
+  Lemma one_run : forall fuel k probe init, match init with Ok ms => m_meta ms = mt | Panic => True end ->
+    run MI fuel k probe init
+    = run CI fuel k probe (match init with Ok ms => Ok (wrap 0 ms) | Panic => Panic end).
+  Proof.
+    intros fuel k probe [ms|] Hm; [|reflexivity]. unfold run. destruct k as [k|]; [|apply one_full; exact Hm].
+    destruct (one_walk fuel (Some k) ms Hm) as [H1 H2].
+    destruct (walk MI fuel (Some k) ms) as [t1 w1], (walk CI fuel (Some k) (wrap 0 ms)) as [t2 w2]. cbn [fst snd] in *. subst t2.
+    destruct w1 as [| |a|a], w2 as [| |b|b]; cbn [wrel] in H2; try contradiction; try reflexivity;
+      destruct H2 as (Ha & j & ->); pose proof (one_reset j a Ha) as Hr;
+      destruct (k_reset MI a) as [a'|], (k_reset CI (wrap j a)) as [b'|]; try contradiction; try reflexivity;
+      destruct Hr as [Ha' ->]; rewrite (one_full _ _ _ Ha'); reflexivity.
+  Qed.
+End One.
+
+Theorem mi_is_ci : forall mt skip k probe, mi_run mt skip k probe = ci_run [mt] [skip] k probe.
+Proof.
+  intros. unfold mi_run, ci_run.
+  assert (fuel_of_comp [mt] = fuel_of mt) as -> by (unfold fuel_of_comp, fuel_of; cbn [fold_right]; rewrite N.add_0_r; reflexivity).
+  rewrite (one_run mt [skip]).
+  - f_equal.
+  - destruct (m_new mt skip) as [ms|] eqn:E; [|exact I]. apply (m_new_keeps _ _ _ E).
+Qed.
+
+Lemma nlist_eqb_refl : forall l, nlist_eqb l l = true.
+Proof. induction l; cbn [nlist_eqb]; [reflexivity|rewrite N.eqb_refl; cbn [andb]; assumption]. Qed.
+
+(* C25: outside D12 the ModuleIterator script yields exactly the specified events *)
+Theorem mi_run_exact : forall mt skip k probe,
+  wf_meta mt = true -> known_D12 mt skip probe = false ->
+  mi_run mt skip k probe = expected_trace (expected_mod 0 mt skip) k probe.
+Proof.
+  intros mt skip k probe Hwf H12. rewrite mi_is_ci.
+  rewrite (ci_run_exact [mt] [skip] k probe).
+  - unfold expected_comp. cbn [expected_comp_from hd]. rewrite app_nil_r. reflexivity.
+  - discriminate.
+  - cbn [forallb]. rewrite Hwf. reflexivity.
+  - reflexivity.
+  - unfold known_D12 in H12. unfold known_D12_comp. cbn [any_mod hd last length pred nth]. rewrite orb_false_r. exact H12.
+  - unfold known_D12 in H12. apply orb_false_iff in H12. destruct H12 as [H12 _].
+    unfold known_D13. cbn [any_nonlast any_mod hd orb forallb].
+    assert (nilb mt = false) as -> by (destruct mt; [discriminate|reflexivity]).
+    rewrite nlist_eqb_refl.
+    destruct k; reflexivity.
+Qed.
+
+(* ------------------------------------------------------------------------------------------ *)
+(* C26 in the words of the property: the component traversal is the concatenation, in module order, of
+   what a ModuleIterator does on each module with that module's skip list (locations tagged with the
+   module index) *)
+Definition retag (m : N) (e : ev) : ev := match e with V _ f i en ok => V m f i en ok | x => x end.
+Fixpoint concat_module_runs (m : N) (metas : list meta) (skips : list (list N)) : list ev :=
+  match metas with
+  | [] => []
+  | mt :: r => map (retag m) (mi_run mt (hd [] skips) None false) ++ concat_module_runs (m + 1) r (tl skips)
+  end.
+
+Lemma retag_instrs : forall m m' f n i, map (retag m) (instrs m' f n i) = instrs m f n i.
+Proof. induction n; intros; cbn [instrs map retag]; [reflexivity|]. rewrite IHn. reflexivity. Qed.
+Lemma retag_expected : forall m m' mt skip, map (retag m) (expected_mod m' mt skip) = expected_mod m mt skip.
+Proof.
+  intros. unfold expected_mod. induction (filter (fun fn => negb (skipped skip (fst fn))) mt) as [|fn l IH]; [reflexivity|].
+  cbn [flat_map]. rewrite map_app, IH. unfold func_visits. rewrite retag_instrs. reflexivity.
+Qed.
+
+Lemma concat_module_runs_expected : forall metas m skips,
+  forallb wf_meta metas = true -> any_mod d12_mod metas skips = false ->
+  concat_module_runs m metas skips = expected_comp_from m metas skips.
+Proof.
+  induction metas as [|mt r IH]; intros m skips Hwf Hd; [reflexivity|].
+  cbn [forallb] in Hwf. apply andb_true_iff in Hwf. destruct Hwf as [Hwf Hwfs].
+  rewrite any_mod_cons in Hd. apply orb_false_iff in Hd. destruct Hd as [Hd Hds].
+  cbn [concat_module_runs expected_comp_from]. rewrite (IH _ _ Hwfs Hds).
+  rewrite (mi_run_exact mt (hd [] skips) None false Hwf) by (unfold known_D12; rewrite Hd; reflexivity).
+  unfold expected_trace. cbn [app]. rewrite app_nil_r, retag_expected. reflexivity.
+Qed.
+
+Theorem ci_run_as_module_runs : forall metas skips,
+  metas <> [] -> forallb wf_meta metas = true -> length skips = length metas ->
+  known_D12_comp metas skips false = false -> known_D13 metas skips None = false ->
+  ci_run metas skips None false = concat_module_runs 0 metas skips.
+Proof.
+  intros metas skips Hne Hwf Hlen H12 H13.
+  rewrite (ci_run_exact metas skips None false Hne Hwf Hlen H12 H13).
+  unfold known_D12_comp in H12. apply orb_false_iff in H12. destruct H12 as [H12 _].
+  rewrite (concat_module_runs_expected metas 0 skips Hwf H12).
+  unfold expected_trace, expected_comp. cbn [app]. rewrite app_nil_r. reflexivity.
+Qed.
+
+(* ------------------------------------------------------------------------------------------ *)
+(* checker soundness: when the implementation's observed events agree with the model, the case is in
+   the domain and outside the known input classes, the property holds of the observed events *)
+
+Theorem checker25_sound : forall c, agree25 c = true -> domain25 c = true -> known25 c = [] -> holds25 c = true.
+Proof.
+  intros c Ha Hd Hk. unfold agree25 in Ha. apply evs_eqb_eq in Ha. unfold holds25. rewrite <- Ha.
+  unfold known25 in Hk. destruct (known_D12 (mc_meta c) (mc_skip c) (mc_probe c)) eqn:E; [discriminate|].
+  rewrite (mi_run_exact _ _ _ _ Hd E). apply evs_eqb_eq. reflexivity.
+Qed.
+
+Theorem checker26_sound : forall c, agree26 c = true -> domain26 c = true -> known26 c = [] -> trace_ok26 c = true.
+Proof.
+  intros c Ha Hd Hk. unfold agree26 in Ha. apply evs_eqb_eq in Ha. unfold trace_ok26. rewrite <- Ha.
+  unfold known26 in Hk.
+  destruct (known_D12_comp (cc_metas c) (cc_skips c) (cc_probe c)) eqn:E12; [discriminate|].
+  destruct (known_D13 (cc_metas c) (cc_skips c) (cc_k c)) eqn:E13; [discriminate|].
+  unfold domain26 in Hd. apply andb_true_iff in Hd. destruct Hd as [Hd Hlen]. apply andb_true_iff in Hd. destruct Hd as [Hne Hwf].
+  apply Nat.eqb_eq in Hlen.
+  assert (cc_metas c <> []) as Hne' by (destruct (cc_metas c); [discriminate Hne|discriminate]).
+  rewrite (ci_run_exact _ _ _ _ Hne' Hwf Hlen E12 E13).
+  apply evs_eqb_eq. reflexivity.
+Qed.
+Corollary checker26_sound_full : forall c, agree26 c = true -> domain26 c = true -> known26 c = [] ->
+  holds26 c = cc_inj_same c.
+Proof. intros. unfold holds26. rewrite (checker26_sound c) by assumption. reflexivity. Qed.
+
+(* ------------------------------------------------------------------------------------------ *)
+(* refutations: each shape of D12 / D13 makes the faithful model deviate from the specification *)
+
+Ltac refute := let H := fresh "H" in intro H; vm_compute in H; discriminate H.
+
+(* D12: function 0 skipped -- function 1 (5 instructions) is walked with function 0's length (1) *)
+Lemma D12_first_skipped_refuted :
+  mi_run [(0, 1); (1, 5)] [0] None false <> expected_trace (expected_mod 0 [(0, 1); (1, 5)] [0]) None false.
+Proof. refute. Qed.
+(* D12: ... and when function 0 is the longer one, curr_op indexes past the end of function 1 *)
+Lemma D12_first_skipped_panics : mi_run [(1, 3); (2, 2)] [1] None false = [V 0 2 0 false true; V 0 2 1 false true; EPanic].
+Proof. vm_compute. reflexivity. Qed.
+(* D12: no local function *)
+Lemma D12_no_local_function_refuted : mi_run [] [] None false = [EPanic] /\ expected_trace (expected_mod 0 [] []) None false = [].
+Proof. vm_compute. auto. Qed.
+(* D12: every function skipped *)
+Lemma D12_all_skipped_refuted : mi_run [(0, 2)] [0] None false = [EPanic] /\ expected_trace (expected_mod 0 [(0, 2)] [0]) None false = [].
+Proof. vm_compute. auto. Qed.
+(* D12: trailing skipped function -- curr_loc() after the end of the traversal panics *)
+Lemma D12_trailing_skipped_refuted :
+  mi_run [(0, 2); (1, 1)] [1] None true = [V 0 0 0 false true; V 0 0 1 true true; EPanic].
+Proof. vm_compute. reflexivity. Qed.
+(* the unconditional statement of C25 is false *)
+Theorem C25_unconditional_refuted :
+  ~ (forall mt skip k probe, wf_meta mt = true -> mi_run mt skip k probe = expected_trace (expected_mod 0 mt skip) k probe).
+Proof. intro H. exact (D12_first_skipped_refuted (H [(0, 1); (1, 5)] [0] None false eq_refl)). Qed.
+
+(* D13: the last function of module 0 is skipped -- module 1 is never visited *)
+Lemma D13_last_function_skipped_refuted :
+  ci_run [[(0, 1); (1, 1)]; [(0, 1)]] [[1]; []] None false = [V 0 0 0 true true]
+  /\ expected_trace (expected_comp [[(0, 1); (1, 1)]; [(0, 1)]] [[1]; []]) None false = [V 0 0 0 true true; V 1 0 0 true true].
+Proof. vm_compute. auto. Qed.
+(* D13: a module without local functions *)
+Lemma D13_module_without_functions_refuted :
+  ci_run [[(0, 1)]; []] [[]; []] None false = [V 0 0 0 true true; EPanic].
+Proof. vm_compute. reflexivity. Qed.
+(* D13: reset() keeps the skip list of the module the cursor was in *)
+Lemma D13_reset_refuted :
+  ci_run [[(0, 1); (1, 1)]; [(0, 1); (1, 1)]] [[]; [0]] (Some 9%nat) false
+  = [V 0 0 0 true true; V 0 1 0 true true; V 1 1 0 true true; EReset; V 0 1 0 true true; V 1 1 0 true true]
+  /\ expected_trace (expected_comp [[(0, 1); (1, 1)]; [(0, 1); (1, 1)]] [[]; [0]]) (Some 9%nat) false
+  = [V 0 0 0 true true; V 0 1 0 true true; V 1 1 0 true true; EReset; V 0 0 0 true true; V 0 1 0 true true; V 1 1 0 true true].
+Proof. vm_compute. auto. Qed.
+Theorem C26_unconditional_refuted :
+  ~ (forall metas skips k probe, metas <> [] -> forallb wf_meta metas = true -> length skips = length metas ->
+       known_D12_comp metas skips probe = false ->
+       ci_run metas skips k probe = expected_trace (expected_comp metas skips) k probe).
+Proof.
+  intro H. specialize (H [[(0, 1); (1, 1)]; [(0, 1)]] [[1]; []] None false ltac:(discriminate) eq_refl eq_refl eq_refl).
+  vm_compute in H. discriminate H.
+Qed.
+
+(* ------------------------------------------------------------------------------------------ *)
+(* The specification says what the property says: [expected_mod] contains exactly the instructions of the
+   unskipped local functions, each with the right end flag, each once, in function and instruction order. *)
+From Coq Require Import Sorted.
+
+Lemma instrs_In : forall m f n i0 x,
+  In x (instrs m f n i0) <-> exists i, x = V m f i (i + 1 =? i0 + N.of_nat n) true /\ i0 <= i < i0 + N.of_nat n.
+Proof.
+  induction n as [|n IH]; intros i0 x.
+  - cbn [instrs In]. split; [tauto|]. intros (i & _ & H). cbn [N.of_nat] in H. lia.
+  - cbn [instrs In]. rewrite IH. split.
+    + intros [<-|(i & -> & Hi)].
+      * exists i0. split; [|lia]. f_equal. destruct n; symmetry; [apply N.eqb_eq|apply N.eqb_neq]; lia.
+      * exists i. split; [|lia]. f_equal. f_equal. lia.
+    + intros (i & -> & Hi). destruct (N.eq_dec i i0) as [->|Hne].
+      * left. f_equal. destruct n; symmetry; [apply N.eqb_eq|apply N.eqb_neq]; lia.
+      * right. exists i. split; [|lia]. f_equal. f_equal. lia.
+Qed.
+
+Theorem expected_mod_In : forall m mt skip x,
+  In x (expected_mod m mt skip) <->
+  exists f n i, In (f, n) mt /\ skipped skip f = false /\ i < n /\ x = V m f i (i + 1 =? n) true.
+Proof.
+  intros. unfold expected_mod. rewrite in_flat_map. split.
+  - intros ([f n] & Hf & Hx). apply filter_In in Hf. destruct Hf as [Hin Hs]. cbn [fst] in Hs. apply negb_true_iff in Hs.
+    unfold func_visits in Hx. cbn [fst snd] in Hx. apply instrs_In in Hx. destruct Hx as (i & -> & Hi).
+    rewrite N2Nat.id, N.add_0_l in *. exists f, n, i. repeat split; try assumption; lia.
+  - intros (f & n & i & Hin & Hs & Hi & ->). exists (f, n). split.
+    + apply filter_In. split; [assumption|]. cbn [fst]. rewrite Hs. reflexivity.
+    + unfold func_visits. cbn [fst snd]. apply instrs_In. exists i. rewrite N2Nat.id, N.add_0_l. split; [reflexivity|lia].
+Qed.
+
+Definition ev_lt (a b : ev) : Prop :=
+  match a, b with
+  | V _ f i _ _, V _ f' i' _ _ => f < f' \/ (f = f' /\ i < i')
+  | _, _ => False
+  end.
+
+Lemma sorted_app : forall {A} (R : A -> A -> Prop) l1 l2,
+  StronglySorted R l1 -> StronglySorted R l2 -> (forall x y, In x l1 -> In y l2 -> R x y) -> StronglySorted R (l1 ++ l2).
+Proof.
+  induction l1 as [|a l1 IH]; intros l2 H1 H2 Hc; [exact H2|].
+  inversion H1; subst. cbn [app]. constructor.
+  - apply IH; [assumption|assumption|]. intros; apply Hc; [right|]; assumption.
+  - apply Forall_app. split; [assumption|]. apply Forall_forall. intros y Hy. apply Hc; [left; reflexivity|assumption].
+Qed.
+
+Lemma instrs_sorted : forall m f n i0, StronglySorted ev_lt (instrs m f n i0).
+Proof.
+  induction n as [|n IH]; intros i0; cbn [instrs]; constructor; [apply IH|].
+  apply Forall_forall. intros x Hx. apply instrs_In in Hx. destruct Hx as (i & -> & Hi). cbn [ev_lt]. right. split; [reflexivity|lia].
+Qed.
+
+(* strictly increasing in (function id, instruction index): in order, and no location twice *)
+Theorem expected_mod_sorted : forall m mt skip, ascending (map fst mt) = true -> StronglySorted ev_lt (expected_mod m mt skip).
+Proof.
+  intros m mt skip. unfold expected_mod. induction mt as [|[f n] mt IH]; intros Ha; [constructor|].
+  cbn [map fst] in Ha. pose proof (ascending_head _ _ Ha) as Hh. specialize (IH (ascending_tail _ _ Ha)).
+  cbn [filter fst]. destruct (negb (skipped skip f)); [|exact IH].
+  cbn [flat_map]. apply sorted_app; [apply instrs_sorted|exact IH|].
+  intros x y Hx Hy. unfold func_visits in Hx. cbn [fst snd] in Hx. apply instrs_In in Hx. destruct Hx as (i & -> & _).
+  fold (expected_mod m mt skip) in Hy. apply expected_mod_In in Hy. destruct Hy as (f' & n' & i' & Hin & _ & _ & ->).
+  cbn [ev_lt]. left. rewrite Forall_forall in Hh. apply Hh. apply in_map_iff. exists (f', n'). auto.
+Qed.
